@@ -45,6 +45,7 @@ CHECKS = {
         "runs": [
             {"pkg": "pure", "run": "^TestC12(Invert|Unregistered|PipeReuse)$", "quick": 1500, "thorough": 60000, "shards_thorough": 6},
             {"pkg": "pure", "run": "^TestC12Corruption$", "quick": 150, "thorough": 4000, "shards_thorough": 4},
+            {"pkg": "thriftw", "run": "^TestC12ThriftUnregistered$", "quick": 200, "thorough": 5000},
             {"pkg": "pure", "run": "^TestC12CorruptionExhaustive$", "quick": 1, "thorough": 1, "only": "thorough", "rapid": False},
         ],
     },
@@ -57,6 +58,7 @@ CHECKS = {
             {"pkg": "core", "run": "^TestC02SendWindow$", "quick": 600, "thorough": 30000, "shards_thorough": 4},
             {"pkg": "core", "run": "^TestC02NestedCall$", "quick": 300, "thorough": 10000, "shards_thorough": 4},
             {"pkg": "core", "run": "^TestC02WriteQueue$", "quick": 200, "thorough": 8000, "shards_thorough": 4},
+            {"pkg": "core", "run": "^TestC02HTTPReplies$", "quick": 400, "thorough": 20000, "shards_thorough": 4},
             {"pkg": "core", "run": "^TestC02CutSweep$", "quick": 1, "thorough": 1, "rapid": False},
         ],
     },
@@ -98,7 +100,9 @@ CHECKS = {
         "level": "exploration",
         "assumptions": ["sync.Pool does not guarantee identity: the documented reset paths (Reset, ReleaseArgs/AcquireArgs, PutMessage/GetMessage) are exercised directly and real reuse is measured (GC held off during a case)"],
         "runs": [
+            {"pkg": "core", "run": "^TestC20EarlySends$", "quick": 500, "thorough": 20000, "shards_thorough": 4},
             {"pkg": "pure", "run": "^TestC20(Message|Args|Socket)$", "quick": 3000, "thorough": 150000, "shards_thorough": 8},
+            {"pkg": "pure", "run": "^TestC20ByteBuffers$", "quick": 6, "thorough": 200, "shards_thorough": 8},
             {"pkg": "core", "run": "^TestC20Context$", "quick": 800, "thorough": 40000, "shards_thorough": 8},
         ],
     },
@@ -193,6 +197,7 @@ CHECKS = {
         "runs": [
             {"pkg": "racew", "race": True, "run": "^TestC14Programs$", "quick": 100, "thorough": 1600, "shards_thorough": 8, "timeout_quick": 900, "timeout_thorough": 7200},
             {"pkg": "racew", "race": True, "run": "^TestC14Pairs$", "quick": 1, "thorough": 1, "rapid": False, "env": {"VERIF_C14_ROUNDS": "3000"}, "timeout_quick": 900},
+            {"pkg": "racew", "race": True, "run": "^TestC14Codecs$", "quick": 300, "thorough": 20000, "shards_thorough": 4},
             {"pkg": "racew", "race": True, "run": "^TestC14Pairs$", "quick": 1, "thorough": 1, "rapid": False, "only": "thorough", "env": {"VERIF_C14_ROUNDS": "30000"}},
             {"pkg": "racew", "race": True, "run": "^TestC14Programs$", "quick": 40, "thorough": 400, "shards_thorough": 4, "env": {"VERIF_C14_LOG": "info"}, "timeout_quick": 900, "timeout_thorough": 7200},
         ],
